@@ -8,6 +8,7 @@ import (
 	"os"
 	"path/filepath"
 	"sort"
+	"strings"
 
 	abci "github.com/cometbft/cometbft/abci/types"
 	tmcrypto "github.com/cometbft/cometbft/proto/tendermint/crypto"
@@ -258,7 +259,7 @@ func (s *Session) exportImport(ws map[string]*tracew.Writer, emitX func(Ev)) (nc
 	qa, qb := project.QueryAnswers(a, wids, evms), project.QueryAnswers(b, wids, evms)
 	qdiff := []string{}
 	for name, va := range qa {
-		if qb[name] != va {
+		if qb[name] != va || strings.HasPrefix(va, "WRONG:") { // (an answer that contradicts the state it was asked about counts as a difference)
 			qdiff = append(qdiff, name)
 		}
 	}
